@@ -11,7 +11,11 @@ import SimbodyModel.C33_WQ
   `execute` per pass);
 * `I wq …`  : runs the ParallelWorkQueue transition system (`C33.WQ.step`) likewise.
 
-The proved theorems say these observations do not depend on the schedule; the schedule seed is the harness' `yseed`. -/
+* `I petrace …` : the callback-level trace logged by the harness is replayed on `C33.PE.step`: every logged event must be
+  the enabled visible step of the named thread (silent steps are taken eagerly, NO spurious wake-ups), the caller's
+  return must find `waitingThreadCount == n`, and the destructor must reach `final`.
+
+The proved theorems say the `pe`/`p2d`/`wq` observations do not depend on the schedule; the schedule seed is the harness' `yseed`. -/
 open Proto
 
 namespace C33Drv
@@ -82,6 +86,87 @@ def handlePE (toks : List String) : List String :=
         " ".intercalate (["O", "pe", toString r, toString ni, toString nf] ++ runsOf idx)
     | none => ["O pe MODEL-STUCK"]
   | _ => ["O pe ERR"]
+
+/-! ### validation of a callback-level trace as a run of the ParallelExecutor transition system (no spurious wake-ups) -/
+
+/-- a worker step that is not a user-visible event: everything except `initialize`, entering/leaving
+`task.execute`, entering/leaving `task.finish` -/
+def silentW (s : C33.PE.State) (w : Nat) : Bool :=
+  let x := s.wk w
+  match x.pc with
+  | .loopTest | .lockAcq | .waitChk | .reacq | .unlock1 | .test2 | .clearRun => true
+  | .exec => !(x.idx < x.cnt)
+  | _ => false
+
+/-- let every worker take all the silent steps it can (they are deterministic; the order is irrelevant) -/
+partial def saturate (s : C33.PE.State) (fuel : Nat) : C33.PE.State :=
+  if fuel == 0 then s else
+  let (s', changed) := (List.range s.n).foldl (fun (acc : C33.PE.State × Bool) w =>
+      let (st, ch) := acc
+      if silentW st w then
+        match C33.PE.step st (.step (.worker w)) with
+        | some st' => (st', true)
+        | none => (st, ch)
+      else (st, ch)) (s, false)
+  if changed then saturate s' (fuel - 1) else s'
+
+def stepW (s : C33.PE.State) (w : Nat) : Option C33.PE.State := C33.PE.step s (.step (.worker w))
+def stepM (s : C33.PE.State) : Option C33.PE.State := C33.PE.step s (.step .main)
+
+/-- process one logged event; `none` = the transition system cannot do that now -/
+def applyEvent (s : C33.PE.State) (ev : String) : Option C33.PE.State :=
+  let kind := ev.front
+  let body := (ev.drop 1).toString
+  let parts := body.splitOn ":"
+  let w := (parts.headD "0").toNat!
+  let idx := ((parts.drop 1).headD "0").toNat!
+  let sat (x : Option C33.PE.State) : Option C33.PE.State := x.map (fun st => saturate st 10000)
+  match kind with
+  | 'C' =>   -- the caller enters execute(): idle -> lock -> setup -> waitChk -> blocked (predicate false) / stays
+    if s.mpc != .idle || s.todo.isEmpty then none else
+    sat ((stepM s).bind stepM |>.bind stepM |>.bind stepM)
+  | 'R' =>   -- execute() returns: the caller must have been woken by the last finish (or never blocked)
+    let s1 := if s.mpc == .reacq then stepM s else some s
+    match s1 with
+    | some st => if st.mpc == .waitChk && st.waiting == st.n then sat (stepM st) else none
+    | none => none
+  | 'i' => if (s.wk w).pc == .init then sat (stepW s w) else none
+  | 'b' => if (s.wk w).pc == .exec && (s.wk w).idx == idx && (s.wk w).idx < (s.wk w).cnt then sat (stepW s w) else none
+  | 'e' => if (s.wk w).pc == .inExec && (s.wk w).idx == idx then sat (stepW s w) else none
+  | 'f' => if (s.wk w).pc == .finLock then sat (stepW s w) else none      -- needs the mutex: rejects overlapping finish()
+  | 'g' => if (s.wk w).pc == .inFin then sat (stepW s w) else none
+  | _ => none
+
+/-- the destructor: from `idle` with nothing left to do, every thread runs (no spurious wake-ups) until `final` -/
+partial def shutdown (s : C33.PE.State) (fuel : Nat) : Bool :=
+  if s.mpc == .final then true
+  else if fuel == 0 then false
+  else
+    let cands : List C33.PE.Tid := .main :: (List.range s.n).map .worker
+    match cands.findSome? (fun t => C33.PE.step s (.step t)) with
+    | some s' => shutdown s' (fuel - 1)
+    | none => false
+
+def handleTrace (toks : List String) : String :=
+  match toks with
+  | th :: rest =>
+    let times := (rest.takeWhile (· != "|")).map String.toNat!
+    let events := (rest.dropWhile (· != "|")).drop 1
+    let n := th.toNat!
+    let s0 := saturate (C33.PE.init n times) 10000
+    let rec go (s : C33.PE.State) (evs : List String) (k : Nat) : String :=
+      match evs with
+      | [] => "O petrace REJECT-no-shutdown-event"
+      | "X" :: _ =>
+        if s.mpc == .idle && s.todo.isEmpty && s.hist.length == times.length then
+          (if shutdown s (200 * (n + 2)) then "O petrace ok" else "O petrace REJECT-shutdown-stuck")
+        else s!"O petrace REJECT@{k}:X"
+      | ev :: more =>
+        match applyEvent (if k % 64 == 0 then compactPE s else s) ev with
+        | some s' => go s' more (k + 1)
+        | none => s!"O petrace REJECT@{k}:{ev}"
+    go s0 events 0
+  | _ => "O petrace ERR"
 
 def rtOf : Nat → C33.RangeType
   | 0 => .full
@@ -175,6 +260,7 @@ def main : IO Unit := do
       out.putStrLn ln.trimAscii.toString
       let res :=
         if fn == "pe" then C33Drv.handlePE args
+        else if fn == "petrace" then [C33Drv.handleTrace args]
         else if fn == "p2d" then C33Drv.handleP2D args
         else if fn == "wq" then C33Drv.handleWQ args
         else ["O " ++ fn ++ " ERR"]
